@@ -23,6 +23,13 @@ CLAIMS = {
          "for EVERY arrangement sort.Slice's contract allows (not only the one pdqsort happens to produce), and WriteDeclarations(perm(decls)) == WriteDeclarations(decls) "
          "for every permutation (n<=3). Counterexamples that need the sort's freedom are replayed natively inside >=13 padding declarations.",
          "DESIGN.md section 3 (C19)", ""),
+ "C10": ("Decides the detection and iota clauses on the functions that implement them. (A) Enum.setIsIota on n<=3 (quick) / n<=4 (thorough) members with full 64-bit symbolic "
+         "values, symbolic 1-byte names (hence symbolic exportedness), int/int64/uint8/uint64/string backing, under the sort.Sort contract (any sorted arrangement): the member "
+         "list is only permuted (each constant once, comment attached), IsIota implies integer backing and exported values 0,1,2,... in the reported order, and every all-exported "
+         "permutation of 0..n-1 is flagged. (B) fetchPkgEnums on a package scope of up to 3 (4) symbolic-named objects (constants of two named types, of a basic type, variables) with a real "
+         "go/ast const declaration carrying no / a label / the opt-out trailing comment: T is an enum iff some typed constant is not opted out; members are exactly those, each once, with their comment. "
+         "The real fetchConstComment/nodeAt/ast.Inspect code is executed. NOT decided: the walk over imported packages, constant values other than int64/uint64/string.",
+         "DESIGN.md section 4 (C10)", ""),
 }
 
 NA = {
